@@ -58,14 +58,14 @@ func runC03(e *Env) {
 	e.S.Floor("C03.valid", 8)
 	ruleErrZero(e, "C03.errzero", "sem")
 	ruleWrap(e, "C03.wrap", "sem")
-	ruleLimit(e, "C03.limit", "sem")
+	ruleLimitAccept(e, "C03.limit", "sem")
 	ruleTyped(e, "C03.typed", "sem")
 	ruleDeleg(e, "C03.deleg", "sem")
 	e.S.Floor("C03.deleg", 12)
 	e.S.Floor("C03.typed", 1)
 	e.S.Floor("C03.errzero", 10)
 	e.S.Floor("C03.wrap", 10)
-	e.S.Floor("C03.limit", 6)
+	e.S.Floor("C03.limit", 2)
 }
 
 func ruleC03Lang(e *Env) {
